@@ -242,6 +242,8 @@ def install(eng):
     eng.fn("chg0")(lambda e, st, h, t: V(T.BOOL, vc.f_chg0(h.z, t.z)))
     vc.acc0 = z3.Const("acc0", z3.ArraySort(vc.JobId.sort(), z3.BoolSort()))
     eng.spec_consts["acc0"] = V(T.SetT(vc.JobId), vc.acc0)
+    vc.trk0 = z3.Const("trk0", TJ.sort())
+    eng.spec_consts["trk0"] = V(TJ, vc.trk0)
     eng.fn("Tracked")(lambda e, st, t: V(T.BOOL, tracked(st, vc.the_backend, t.z)))
     eng.fn("DepOK")(lambda e, st, t: V(T.BOOL, z3.Or(vc.dry_mode, tracked(st, vc.the_backend, t.z))))
     # interface view of a spec-hash store: the set of targets whose spec differs from the record
@@ -446,3 +448,9 @@ def install(eng):
 
     eng.fn("Resolved")(lambda e, st, d, o: V(OD, resolved(d.z, o.z)))
     eng.universe("OptKey", vc.OptKey)
+    for _n in ("FileProvidedByMultipleTargetsError", "UnresolvedInputError", "CircularDependencyError",
+               "InvalidPathError"):
+        eng.exc_names[_n] = getattr(gwf.core, _n)
+    import gwf.exceptions as _gex
+    for _n in ("GWFError", "WorkflowError"):
+        eng.exc_names[_n] = getattr(_gex, _n)
